@@ -90,7 +90,7 @@ def node(rng, pids):
 
 
 def cases(seed, tier):
-    n = 400 if tier == "quick" else 6000
+    n = 600 if tier == "quick" else 6000
     rng = random.Random(seed * 1000003 + 15)
     for i in range(n):
         cid = "C15-%d-%d" % (seed, i)
